@@ -171,6 +171,17 @@ CLAIMS = {
   "technique": "static analysis: typestate dataflow + call-sequence template matching against SP 800-90A",
   "design_ref": "DESIGN.md section 4, C11",
  },
+ "C19": {
+  "text": "Each signing function's printf templates are rendered symbolically and checked against the published SigV4 layout: one "
+          "clock sample formatted twice (UTC), the HMAC key chain date->region->service->aws4_request->string-to-sign with each key the "
+          "previous output, canonical-request self-consistency (lower-case sorted header names = signed-headers line = SignedHeaders= in "
+          "the result; credential scope signed = scope returned; payload hash = hex(SHA-256(body, body ? bodylen : 0)) = returned "
+          "content hash; returned timestamp = signed timestamp; presigned query parameters sorted and returned plus the signature).",
+  "note": "Trusted: strftime/gmtime_r, HMAC_SHA256_Buf/SHA256_Buf/hexify (C01/C17 clauses). Not decided: the numeric signature "
+          "bytes against an independent implementation (value equality), percent-encoding (the interface does none).",
+  "technique": "static analysis: symbolic rendering of format templates + argument provenance and chain rules",
+  "design_ref": "DESIGN.md section 4, C19",
+ },
 }
 
 NOT_APPLICABLE = {
